@@ -704,6 +704,54 @@ impl Scenario for Cw20Scen {
         }
     }
 
+    /// Small scope: three actors (p0 rich, p1 poor, p2 empty / receiving contract), amounts 0/1/2, self-targets,
+    /// expiries at the current and the next block.  Variant 0: p0 is minter under a cap of 4; variant 1: no minter.
+    fn small_scope(&mut self, variant: u64) -> Option<SmallScope> {
+        if self.wide || variant > 1 {
+            return None;
+        }
+        let (p0, p1, p2) = (self.pool[0].clone(), self.pool[1].clone(), self.pool[2].clone());
+        let h = self.env.block.height;
+        let t = self.env.block.time.nanos();
+        let inst = if variant == 0 {
+            format!("inst name=Token sym=TOK dec=6 bal=+{p0}:2,+{p1}:1 mint=+{p0} cap=4 mkt=-")
+        } else {
+            format!("inst name=Token sym=TOK dec=6 bal=+{p0}:2,+{p1}:0 mint=- cap=- mkt=-")
+        };
+        let mut al = vec![
+            format!("exec {p0} transfer to=+{p1} amt=1"),
+            format!("exec {p0} transfer to=+{p0} amt=1"),
+            format!("exec {p1} transfer to=+{p0} amt=2"),
+            format!("exec {p0} transfer to=+{p2} amt=0"),
+            format!("exec {p0} burn amt=1"),
+            format!("exec {p0} send contract=+{p2} amt=1 payload=00"),
+            format!("exec {p0} increase_allowance spender=+{p1} amt=1 expires=-"),
+            format!("exec {p0} increase_allowance spender=+{p1} amt=2 expires=h{}", h + 1),
+            format!("exec {p0} increase_allowance spender=+{p1} amt=0 expires=h{}", h + 1),
+            format!("exec {p0} decrease_allowance spender=+{p1} amt=1 expires=-"),
+            format!("exec {p0} decrease_allowance spender=+{p1} amt=1 expires=h{h}"),
+            format!("exec {p1} increase_allowance spender=+{p0} amt=1 expires=never"),
+            format!("exec {p1} transfer_from owner=+{p0} to=+{p2} amt=1"),
+            format!("exec {p1} transfer_from owner=+{p0} to=+{p1} amt=2"),
+            format!("exec {p0} transfer_from owner=+{p1} to=+{p0} amt=1"),
+            format!("exec {p1} burn_from owner=+{p0} amt=1"),
+            format!("exec {p1} send_from owner=+{p0} contract=+{p2} amt=1 payload=01"),
+            format!("env height={} time={}", h + 1, t + 5_000_000_000),
+        ];
+        if variant == 0 {
+            al.push(format!("exec {p0} mint to=+{p1} amt=1"));
+            al.push(format!("exec {p0} mint to=+{p0} amt=2"));
+            al.push(format!("exec {p1} mint to=+{p1} amt=0"));
+            al.push(format!("exec {p0} update_minter new=+{p1}"));
+            al.push(format!("exec {p1} mint to=+{p1} amt=1"));
+            al.push(format!("exec {p0} update_minter new=-"));
+        } else {
+            al.push(format!("exec {p0} mint to=+{p0} amt=1"));
+            al.push(format!("exec {p0} update_minter new=+{p0}"));
+        }
+        Some(SmallScope { prefix: vec![inst], alphabet: al })
+    }
+
     fn apply(&mut self, op: &str) -> Vec<String> {
         let a = Args::parse(op);
         let kind = a.pos.first().map(|s| s.as_str()).unwrap_or("");
